@@ -176,4 +176,4 @@ def strategy(tier):
 
 
 PARTS = [Part("service", eval_case, {"quick": 1000, "thorough": 25000}, strategy=strategy, min_nontrivial={"quick": 100, "thorough": 2500})]
-MIN_SHARE = {"service": {"nested-site": 0.1, "zones>=2": 0.5, "both-level-between-source-and-sink": 0.1, "recovery-observed": 0.05}}
+MIN_SHARE = {"service": {"nested-site": 0.096, "zones>=2": 0.4, "both-level-between-source-and-sink": 0.1, "recovery-observed": 0.05}}
